@@ -1,5 +1,6 @@
 import Lemmas.Online.Concrete
 import Lemmas.Online.Rounds
+import Lemmas.Online.Orphan
 /-!
 # C04 — a failing migration never leaves the version table out of step
 
@@ -389,6 +390,103 @@ theorem rounds_independent (rounds : List (Round α)) (h : ∀ r ∈ rounds, Per
       rw [run_leaves_no_txn ap c hr.1 pre m ms db]
       exact ih (fun r' hr' => h r' (List.mem_cons_of_mem _ hr')) _
 
+/-- One-enclosing-transaction regime (transactional DDL, no per-migration transactions, no
+    external transaction), plan WITHOUT autocommit blocks: a completed round also ends outside
+    any transaction, with everything applied and recorded.  (Also for an empty plan: the outer
+    `_ProxyTransaction` commits the autobegun transaction.) -/
+theorem run_leaves_no_txn_single_partial (c : Cfg) (h1 : c.external = false) (h2 : c.tddl = true) (h3 : c.perMig = false)
+    (pre : List (Stmt α)) (plan : List (Mig α)) (hp : ∀ m ∈ plan, allPlain m.segs = true) (db : σ) :
+    roundOutcome ap c pre (plan.map migAtoms) (freshSt db) = .ok (freshSt (stateAt ap pre plan plan.length db)) := by
+  have hb : beginTransaction c false (initSt c db) = (true, { autobegin c.mode (initSt c db) with txn := true }) := by
+    simp [beginTransaction, h1, h2, h3]
+  have htxn : (loopStart ap c pre db).txn = true := by simp [loopStart, startSt, hb]
+  obtain ⟨s', e, w, t, a⟩ := runLoop_external_complete ap c (Or.inr ⟨h2, h3⟩) plan hp (loopStart ap c pre db)
+  unfold roundOutcome
+  rw [roundCfg_fresh c h1 db, ← initSt_fresh c h1 db, runMigrations_eq', e]
+  rw [htxn] at t
+  rw [loopStart_auto] at a
+  simp [hb, exitIf, proxyExit, t, commit, freshSt, a, w, loopStart_working, stateAt, applied]
+
+/-- a round the two lemmas cover: per-migration regime with at least one migration, or the
+    one-enclosing-transaction regime with no autocommit block in its migrations -/
+def RoundOk (r : Round α) : Prop :=
+  (PerMigRegime r.1 ∧ r.2.2 ≠ []) ∨
+  (r.1.external = false ∧ r.1.tddl = true ∧ r.1.perMig = false ∧ ∀ m ∈ r.2.2, allPlain m.segs = true)
+
+/-- `rounds_independent` extended to the one-enclosing-transaction regime.  PARTIAL: rounds of
+    that regime must not contain autocommit blocks (missing: the complete-migration lemma for
+    autocommit blocks when the transaction was opened at the env.py level), and per-migration
+    rounds still need at least one migration (false otherwise: finding C04-F2). -/
+theorem rounds_independent_partial (rounds : List (Round α)) (h : ∀ r ∈ rounds, RoundOk r) (db : σ) :
+    roundsSt ap rounds (freshSt db) = some (freshSt (roundsDb ap rounds db)) := by
+  induction rounds generalizing db with
+  | nil => rfl
+  | cons r rest ih =>
+    obtain ⟨c, pre, plan⟩ := r
+    have ih' := fun db' => ih (fun r' hr' => h r' (List.mem_cons_of_mem _ hr')) db'
+    rcases h (c, pre, plan) List.mem_cons_self with ⟨hreg, hne⟩ | ⟨h1, h2, h3, hp⟩
+    · cases plan with
+      | nil => exact absurd rfl hne
+      | cons m ms =>
+        simp only [roundsSt, roundsDb]
+        rw [run_leaves_no_txn ap c hreg pre m ms db]
+        exact ih' _
+    · simp only [roundsSt, roundsDb]
+      rw [run_leaves_no_txn_single_partial ap c h1 h2 h3 pre plan hp db]
+      exact ih' _
+
+/-! ### finding C04-F2 as a theorem of the model -/
+
+theorem start_extInv (π : σ → ρ) (c : Cfg) (hx : c.external = true) (pre : List (Stmt α)) (db : σ)
+    (hpre : ∀ s ∈ pre, s.kind = .ddl → ∀ x, π (ap s.act x) = π x) (hmd : c.mode ≠ .autocommitDDL) :
+    ExtInv π db (ensureVT ap c.mode pre (autobegin c.mode (beginTransaction c false (initSt c db)).2)) := by
+  have h0 : ExtInv π db (initSt c db) := ⟨rfl, fun _ => rfl, rfl, rfl, by simp [initSt, hx]⟩
+  have hb : (beginTransaction c false (initSt c db)).2 = initSt c db := by simp [beginTransaction, hx]
+  have ha : autobegin c.mode (initSt c db) = initSt c db := by simp [autobegin, initSt, hx]
+  rw [hb, ha]
+  have := runAtoms_extInv ap π db c.mode hmd (pre.map .stmt) (initSt c db)
+    (fun s hs => by
+      obtain ⟨s', hs', e⟩ := List.mem_map.mp hs
+      cases e; exact hpre _ hs') h0
+  rw [runAtoms_stmts] at this
+  unfold ensureVT
+  cases pre with
+  | nil => simpa using h0
+  | cons s r => simpa [initSt, hx, execAll, Outcome.st] using this
+
+/-- **C04-F2, positively**: a run that alembic believes to be inside the caller's transaction
+    (`external`) while nobody owns that transaction (`orphan`: it was autobegun by an earlier
+    context on the same connection) NEVER records anything — whether its migrations all
+    complete or one of them raises, after the connection is closed the version rows (any
+    observation `π` that DDL statements leave alone) are exactly those from before the run,
+    on `transactional` and `pysqlite` backends; non-transactional DDL executed before the
+    first DML of the run stays applied (see the example below): applied but not recorded. -/
+theorem orphan_round_loses_rows (π : σ → ρ) (c : Cfg) (hx : c.external = true) (ho : c.orphan = true)
+    (hmd : c.mode ≠ .autocommitDDL) (pre : List (Stmt α)) (progs : List (List (Atom α))) (db : σ)
+    (hpre : ∀ s ∈ pre, s.kind = .ddl → ∀ x, π (ap s.act x) = π x)
+    (hp : ∀ p ∈ progs, ∀ s, Atom.stmt s ∈ p → s.kind = .ddl → ∀ x, π (ap s.act x) = π x) :
+    π (runFinal ap c pre progs db) = π db := by
+  have hinv := runLoop_extInv ap π db c hx hmd progs _ hp (start_extInv ap π c hx pre db hpre hmd)
+  have hb : (beginTransaction c false (initSt c db)).1 = false := by simp [beginTransaction, hx]
+  unfold runFinal runMigrations
+  cases hq : runLoop ap c progs (ensureVT ap c.mode pre (autobegin c.mode (beginTransaction c false (initSt c db)).2)) with
+  | ok s => rw [hq] at hinv; simpa [hb, exitIf, closeConn, ho, rollback, Outcome.st] using hinv.1
+  | raised s => rw [hq] at hinv; simpa [hb, exitIf, closeConn, rollback, Outcome.st] using hinv.1
+
+/-- **The complement**: inside a transaction the caller really owns and commits (`external`,
+    not `orphan`), a run whose migrations all complete (no autocommit block, which would raise
+    there) leaves every migration applied and recorded once the caller has committed — in
+    every backend mode.  The only difference to `orphan_round_loses_rows` is who owns the
+    transaction. -/
+theorem owned_external_keeps (c : Cfg) (hx : c.external = true) (ho : c.orphan = false) (pre : List (Stmt α))
+    (plan : List (Mig α)) (h : ∀ m ∈ plan, allPlain m.segs = true) (db : σ) :
+    runFinal ap c pre (plan.map migAtoms) db = stateAt ap pre plan plan.length db := by
+  have hb : (beginTransaction c false (initSt c db)).1 = false := by simp [beginTransaction, hx]
+  obtain ⟨s', e, w, _, _⟩ := runLoop_external_complete ap c (Or.inl hx) plan h (loopStart ap c pre db)
+  unfold runFinal
+  rw [runMigrations_eq', e]
+  simp [hb, exitIf, closeConn, hx, ho, commit, w, loopStart_working, stateAt, applied]
+
 /-! ### statements whose effect is the identity (a migration that reads the current heads) -/
 
 /-- `plan'` is `plan` with identity statements inserted anywhere in the bodies -/
@@ -504,6 +602,20 @@ example : PlanInsertId applyAct exPlan exPlanRead :=
     .skip _ (fun _ => rfl) (.cons _ (.skip _ (fun _ => rfl) (.cons _ (.skip _ (fun _ => rfl) .nil)))), trivial⟩
 example : runFinal applyAct (cfg .transactional true true) exPre (oracle .exception exPlanRead 1 3) exDb =
     runFinal applyAct (cfg .transactional true true) exPre (oracle .exception exPlan 1 1) exDb := by decide
+
+-- a one-enclosing-transaction round without autocommit blocks satisfies the hypothesis of rounds_independent_partial
+example : RoundOk (cfg .transactional true false, exPre, exPlan) :=
+  Or.inr ⟨rfl, rfl, rfl, by
+    intro m hm
+    simp only [exPlan, List.mem_cons, List.not_mem_nil, or_false] at hm
+    rcases hm with rfl | rfl <;> rfl⟩
+-- C04-F2: orphaned external transaction on sqlite3 legacy mode, both migrations complete: the first table is applied
+-- (DDL before the first DML autocommits), nothing is recorded
+example : runFinal applyAct { mode := .pysqlite, tddl := false, perMig := false, external := true, orphan := true } exPre
+    (exPlan.map migAtoms) exDb = { objs := [0], rows := [], vt := true } := by decide
+-- the same run inside a transaction the caller really owns and commits: everything applied and recorded
+example : runFinal applyAct { mode := .pysqlite, tddl := false, perMig := false, external := true, orphan := false } exPre
+    (exPlan.map migAtoms) exDb = { objs := [0, 1, 2, 3, 4], rows := [1], vt := true } := by decide
 
 /-- Why `single_txn` excludes autocommit blocks: `autocommit_block` commits the enclosing
     transaction *by design* (documented warning in its docstring).  Here migration `b`
